@@ -92,8 +92,23 @@ def run_case(case, ctx):
         if ev is not None and ev.is_mutating:
             state["mut"] += 1
 
-    with fsi.active(d, observe):
+    # a Violation raised inside the callback would be swallowed by the code under test (it runs inside the
+    # store's try/except blocks): keep the first one and raise it after the call has returned
+    pending = []
+
+    def guarded(ev):
+        from ..runner import Violation
+        if pending:
+            return
+        try:
+            observe(ev)
+        except Violation as v:
+            pending.append(v)
+
+    with fsi.active(d, guarded):
         out = sc.call_target(store)
+    if pending:
+        raise pending[0]
     observe(None)
     ctx.classify("target=" + case["kind"])
     ctx.classify("outcome=" + ("ok" if is_ok(out) else out[1]))
